@@ -197,10 +197,11 @@ PROPS = {
                   'flags read inside every behaviour compared with the policy-defined configuration of the reference model',
         quick=[S('flags', introspect=True, observe_flags=True), S('block', introspect=True, observe_flags=True), S('flags3', introspect=True, observe_flags=True),
                S('flags_before', cfgs=['b', 'b11', 'm', 'mc'], introspect=True, observe_flags=True),
-               S('flags_after_exit', cfgs=['b', 'm'], introspect=True, observe_flags=True)],
+               S('flags_after_exit', cfgs=['b', 'm'], introspect=True, observe_flags=True),
+               S('flags4', cfgs=['b', 'b11', 'm', 'mf'], introspect=True)],
         thorough=[S('flags', introspect=True, observe_flags=True), S('block', introspect=True, observe_flags=True), S('flags3', introspect=True, observe_flags=True)] +
                  [S('flags_' + p, introspect=True, observe_flags=True) for p in ('before', 'after_exit', 'after_action', 'after_entry')] +
-                 [S('hier2', introspect=True)],
+                 [S('hier2', introspect=True), S('flags4', introspect=True, observe_flags=True)],
         rule='every reachable configuration x every flag x {default, OR, AND}; the introspection answers are part of the state identity so a path-dependent answer '
              'creates a second state instead of hiding; inside behaviours: every callback position under the switch policies',
     ),
